@@ -176,11 +176,11 @@ class eap(packet_base):
         if self.code == self.REQUEST_CODE:
             (self.type,) \
                 = struct.unpack('!B', raw[self.MIN_LEN:self.MIN_LEN + 1 ])
-            # not yet implemented
+            self.next = raw[self.MIN_LEN + 1:] # type data: not yet implemented
         elif self.code == self.RESPONSE_CODE:
             (self.type,) \
                 = struct.unpack('!B', raw[self.MIN_LEN:self.MIN_LEN + 1 ])
-            # not yet implemented
+            self.next = raw[self.MIN_LEN + 1:] # type data: not yet implemented
         elif self.code == self.SUCCESS_CODE:
             self.next = None    # Success packets have no payload
         elif self.code == self.REQUEST_CODE:
@@ -190,4 +190,8 @@ class eap(packet_base):
                      (eap.code_name(self.code),))
 
     def hdr(self, payload):
-        return struct.pack('!BBH', self.code, self.id, self.length)
+        r = struct.pack('!BBH', self.code, self.id, self.length)
+        if (self.code in (self.REQUEST_CODE, self.RESPONSE_CODE)
+            and hasattr(self, 'type')):
+            r += struct.pack('!B', self.type)
+        return r
